@@ -72,7 +72,7 @@ Example C11_ledger_witness :
    && existsb (fun x => 0 <? sa_dep x) (c_subs s) && existsb (fun x => 0 <? sa_lost x) (c_subs s)) = true.
 Proof. vm_compute. split; reflexivity. Qed.
 
-From Sge Require Import Gen.kernels Proofs.GenKernels.
+From Sge Require Import Gen.kernels Proofs.GenSub.
 (* the ledger kernels of the model ARE the Go methods: K_AccountSummary_* are generated from x/subaccount/types/accsummary.go on every run
    (Gen/kernels.v) and proved equal to the model's functions; a change of one of these methods breaks this theorem *)
 Theorem C11_kernels_generated : forall x a unlocked bank,
